@@ -531,7 +531,7 @@ func check(c *Ctx, r *Report) error {
 		// small lattices first (they also go to Coq), then resolutions up to 64
 		small := []int{3, 4, 5, 6, 7, 8}
 		large := []int{10, 12, 16, 20, 25, 32, 40, 50, 64}
-		reps := TierN(c.Tier, 2, 10, 5)
+		reps := TierN(c.Tier, 3, 10, 5)
 		for rep := 0; rep < reps; rep++ {
 			for _, n := range small {
 				for _, rd := range []string{"uniform", "mc", "octree"} {
